@@ -206,6 +206,11 @@ def stepModel (d : D) (line : String) : D × String :=
       match parseActs ((kv ws "s").getD "").toList [] with
       | ([a], _) => if a.kind == 'P' then (d, "bad-op") else observe (doIssue d a "a.b") "ok"
       | _ => (d, "bad-op")
+    | "preq" =>
+      -- the peer with asynchronous API handlers is, for the requester, one more peer that answers when told to
+      match parseActs ((kv ws "s").getD "").toList [] with
+      | ([a], _) => if a.kind == 'P' then (d, "bad-op") else observe (doIssue d a "park.Park") "ok"
+      | _ => (d, "bad-op")
     | "areq" =>
       -- node-level `app.Request` routed to a peer: the same `RequestEx`; the echo peer answers at once
       let peer := (kv ws "peer").getD ""
@@ -251,6 +256,19 @@ def stepModel (d : D) (line : String) : D × String :=
       match kvNat ws "dt" with
       | some dt =>
         let order := (((kv ws "order").getD "").splitOn ",").filter (· ≠ "")   -- resolved to ids at each scan
+        if ((kvNat ws "flood").getD 0) > 0 then
+          -- the service goroutine is parked for the whole `dt`: at most one expiry tick is pending (the timer is
+          -- re-armed only after its callback ran); it is delivered at the end, and the period restarts there
+          -- (+2 ms: after a frame of >= 100 ms the run-service loop sleeps 2 ms before it polls its queues again)
+          if dt < 100 then (d, "bad-op") else
+          let target := d.s.now + dt + 2
+          if d.s.armed && d.nextFire ≤ target then
+            let d := { d with s := { d.s with now := target } }
+            let d := settle { d with s := tick d.s (order.filterMap (orderId d)) }
+            let d := if d.s.armed then { d with nextFire := d.s.now + 1000 } else d
+            observe d "ok"
+          else observe { d with s := { d.s with now := target } } "ok"
+        else
         observe (advLoop d (d.s.now + dt) order) "ok"
       | none => (d, "bad-op")
     | _ => (d, "bad-op")
@@ -272,6 +290,7 @@ structure SS where
   insts : List Inst := []
   prevPend : List Nat := []
   pans : List Nat := []        -- times of recovered callback panics: each one excuses one expiry scan
+  floods : List (Nat × Nat) := []   -- (end time, length) of the windows in which the service goroutine was parked
   poisoned : Bool := false     -- a violation was already reported in this case: the bookkeeping is void
 
 structure CbEv where
@@ -342,7 +361,7 @@ def specStep (st : SS) (line : String) : SS × String :=
       if st.poisoned || os.head? == some "bad-op" then (st, "ok") else
       if (obs.splitOn "panic").length > 1 || (obs.splitOn "<no-observation").length > 1 then
         ({ st with poisoned := true }, viol "crash" "the requester crashed or hung" op) else
-      let now := if opk == "adv" then st.now + (kvNat ws "dt").getD 0 else st.now
+      let now := if opk == "adv" then st.now + (kvNat ws "dt").getD 0 + (if ((kvNat ws "flood").getD 0) > 0 then 2 else 0) else st.now
       -- 1. instances issued during the op, ids the peer saw
       let newInsts : List Inst := (listOf os "iss").filterMap fun e =>
         match e.splitOn "@" with
@@ -435,7 +454,12 @@ def specStep (st : SS) (line : String) : SS × String :=
       let pend : List Nat := (listOf os "pend").filterMap String.toNat?
       let pans : List Nat := st.pans ++ (listOf os "pan").filterMap String.toNat?
       -- the scan period, stretched by one period per panic that aborted a scan after the deadline
+      let floodLen := (kvNat ws "flood").getD 0
+      let floods : List (Nat × Nat) :=
+        if opk == "adv" && floodLen > 0 then (now, (kvNat ws "dt").getD 0 + 2) :: st.floods else st.floods
+      -- … and by every window, ending after the deadline, in which the service goroutine was kept busy (no scan can run)
       let grace (i : Inst) : Nat := 1000 * (1 + (pans.filter (fun t => t > i.t0 + reqTimeout)).length)
+        + ((floods.filter (fun f => f.1 > i.t0 + reqTimeout)).map (·.2)).foldl (· + ·) 0
       let unknownNew := pend.filter fun id => !st.prevPend.contains id && !(insts.any (·.id == some id))
       let missedAnswer : Option String := answers.bind fun a =>
         if a.kind == 'R' && !(getInst insts a.tag).any (·.cbSeen) then
@@ -474,7 +498,7 @@ def specStep (st : SS) (line : String) : SS × String :=
             && sortNat pend != sortNat st.prevPend then
           some (viol "notify-created-pending" s!"a notification changed the pending table {st.prevPend} -> {pend}" op) else none
       let res := firstSome [badSent, cbViol, serFail, ntfViol, missedAnswer, xMissing, pendViol, lostViol]
-      ({ now := now, insts := insts, prevPend := pend, pans := pans, poisoned := res.isSome }, res.getD "ok")
+      ({ now := now, insts := insts, prevPend := pend, pans := pans, floods := floods, poisoned := res.isSome }, res.getD "ok")
     | none => (st, "ok")
   | _ => (st, "bad-line")
 
